@@ -28,7 +28,7 @@ pub fn all_gt_strings(alleles: &[Option<u8>], max_ploidy: usize) -> Vec<String> 
     fn rec(cur: &mut Vec<(Option<u8>, bool)>, alleles: &[Option<u8>], ploidy: usize, out: &mut Vec<String>) {
         if cur.len() == ploidy {
             let gt = Gt {
-                alleles: cur.iter().map(|c| c.0).collect(),
+                alleles: cur.iter().map(|c| c.0.map(u64::from)).collect(),
                 phased: cur.iter().skip(1).map(|c| c.1).collect(),
             };
             out.push(gt.render());
@@ -245,7 +245,7 @@ pub fn check(ctx: &Ctx) -> Check {
     let parts: Vec<Box<dyn Part>> = vec![
         Box::new(EnumPart {
             name: "gt-alphabet",
-            rule: "EVERY GT string over alleles {., 0, 1, 2, 3, 10}, separators {/, |}, ploidy 1..3 (942 strings; thorough adds ploidy 4 over {., 0, 1, 2} and every allele index up to 62) x {VCF text, BCF binary} x {probe sample selected, not selected}, one record with a distinctive contig and position, `sfs create -vv`: counted at index a+b / skipped with the stated reason / run fails naming contig and position / no effect when unselected; non-trivial = not one of the 11 strings the unit tests use; distinct by (string, path, selection)",
+            rule: "EVERY GT string over alleles {., 0, 1, 2, 3, 10}, separators {/, |}, ploidy 1..3 (942 strings; plus allele indices 255..257, 511..513, 65536/7, 2^32(+1) in the VCF path; thorough adds ploidy 4 over {., 0, 1, 2} and every allele index up to 62) x {VCF text, BCF binary} x {probe sample selected, not selected}, one record with a distinctive contig and position, `sfs create -vv`: counted at index a+b / skipped with the stated reason / run fails naming contig and position / no effect when unselected; non-trivial = not one of the 11 strings the unit tests use; distinct by (string, path, selection)",
             exhaustive: true,
             cases: Box::new(move |_| {
                 let mut strings = all_gt_strings(&[None, Some(0), Some(1), Some(2), Some(3), Some(10)], 3);
@@ -263,6 +263,14 @@ pub fn check(ctx: &Ctx) -> Check {
                         for selected in [true, false] {
                             v.push(GtCase { gt: gt.clone(), bcf, selected });
                         }
+                    }
+                }
+                // allele indices beyond one byte / two bytes / four bytes (VCF text only: BCF int8 vectors
+                // end at 62); all are multiallelic
+                for a in ["255", "256", "257", "511", "512", "513", "65536", "65537", "4294967296", "4294967297"] {
+                    for gt in [format!("0/{a}"), format!("{a}|0"), format!("1/{a}"), format!("{a}/1"), format!("{a}/{a}"), format!("./{a}")] {
+                        v.push(GtCase { gt: gt.clone(), bcf: false, selected: true });
+                        v.push(GtCase { gt, bcf: false, selected: false });
                     }
                 }
                 v
